@@ -76,7 +76,8 @@ def gen_fp(rng, name):
     n = rng.randint(0, 8)
     calls = [(vec(rng, psz, 1.0), vec(rng, psz, 0.5 ** k), vec(rng, psz, 0.5 ** k)) for k in range(n)]
     ustar = vec(rng, psz, 2.0)
-    line = "fp %s %d %s %s %d %s %s 5" % (name, psz, hx(1e-12), hx(1e-3), n,
+    eeps, seps = rng.choice([(1e-12, 1e-3), (1e-12, 1e-3), (0.0, 0.0), (1e-8, 0.0)])
+    line = "fp %s %d %s %s %d %s %s 5" % (name, psz, hx(eeps), hx(seps), n,
                                           " ".join(" ".join(map(hx, u + du + r)) for u, du, r in calls),
                                           " ".join(map(hx, ustar)))
     return {"line": line, "name": name, "history": n}
